@@ -213,6 +213,74 @@ pub fn run(line: &str) -> String {
             let (a, b) = noulith::pythonic_slice(&xs, p(w[2]), p(w[3]));
             format!("({}, {})", a, b)
         }
+        // @chain <K> <precbits assoc>*K <rel>* : run ChainEvaluator on e0 f0 e1 ... f(K-1) eK with recorder operators.
+        // assoc is L|R, precedence is the f64 bit pattern in hex, each rel token `i_j_k:m` says the (merged) operator made of i,j,k chains with operator m
+        "@chain" => chain(&w),
         _ => panic!("unknown kernel command"),
+    }
+}
+
+// ---------------------------------------------------------------------------------------------- ChainEvaluator replay
+use noulith::{Assoc, Builtin, ChainEvaluator, Env, Func, NRes, Obj, Precedence, REnv, Rc, RefCell};
+use std::collections::HashSet;
+
+#[derive(Debug, Clone)]
+struct RecOp {
+    name: String, // "op:i_j_k"
+    rel: Rc<HashSet<String>>,
+}
+impl Builtin for RecOp {
+    fn run(&self, _env: &REnv, args: Vec<Obj>) -> NRes<Obj> {
+        let mut v = vec![Obj::from(self.name.clone())];
+        v.extend(args);
+        Ok(Obj::list(v))
+    }
+    fn builtin_name(&self) -> &str {
+        &self.name
+    }
+    fn try_chain(&self, other: &Func) -> Option<Func> {
+        match other {
+            Func::Builtin(b) => {
+                let on = b.builtin_name();
+                let key = format!("{}:{}", &self.name[3..], &on[3..]);
+                if self.rel.contains(&key) {
+                    Some(Func::Builtin(Rc::new(RecOp {
+                        name: format!("{}_{}", self.name, &on[3..]),
+                        rel: Rc::clone(&self.rel),
+                    })))
+                } else {
+                    None
+                }
+            }
+            _ => None,
+        }
+    }
+}
+
+fn chain(w: &[&str]) -> String {
+    let k: usize = w[1].parse().unwrap();
+    let mut rel = HashSet::new();
+    for t in &w[2 + 2 * k..] {
+        rel.insert(t.to_string());
+    }
+    let rel = Rc::new(rel);
+    let env: REnv = Rc::new(RefCell::new(Env::empty()));
+    // a CodeLoc value can only be obtained from a parsed expression (the type is not exported)
+    let ex = noulith::parse("0").unwrap().unwrap();
+    let mut ce = ChainEvaluator::new(Obj::i64(100));
+    for i in 0..k {
+        let p = f64::from_bits(u64::from_str_radix(w[2 + 2 * i], 16).unwrap());
+        let a = if w[3 + 2 * i] == "L" { Assoc::Left } else { Assoc::Right };
+        let op = Func::Builtin(Rc::new(RecOp {
+            name: format!("op:{}", i),
+            rel: Rc::clone(&rel),
+        }));
+        if let Err(e) = ce.give(&env, op, Precedence(p, a), Obj::i64(101 + i as i64), ex.start, ex.end) {
+            return format!("ERR {}", e);
+        }
+    }
+    match ce.finish(&env) {
+        Ok(v) => format!("{}", noulith::FmtObj(&v, &noulith::MyFmtFlags::budgeted_repr(usize::MAX))),
+        Err(e) => format!("ERR {}", e),
     }
 }
